@@ -38,7 +38,7 @@ func appendGenericerNotEmpty(fi *finfo, buf []byte, rv reflect.Value, addr uintp
 }
 
 func appendGenericerAddr(fi *finfo, buf []byte, rv reflect.Value, addr uintptr, safe bool) ([]byte, any, appendStatus) {
-	v := rv.FieldByIndex(fi.index).Addr().Interface()
+	v := addrOf(rv.FieldByIndex(fi.index)).Interface()
 	buf = append(buf, fi.jkey...)
 	if g, _ := v.(alt.Genericer); g != nil {
 		if n := g.Generic(); n != nil {
